@@ -501,7 +501,7 @@ def exhaustive_shard(arg):
 
 def run(ctx):
     nsh = 16
-    per = ctx.n(3500, 24000)
+    per = ctx.n(3500, 72000)
     res = Result()
     for r in pmap('harness.props.c05', 'shard', [(ctx.seed, i, per) for i in range(nsh)]):
         res.merge(r)
